@@ -4,6 +4,8 @@
 From Coq Require Import ZArith NArith Bool List.
 From WW Require Import Gen.Params Base.AMap Model.SessionTime Model.Machine Model.Entry
      Proofs.MachineP Proofs.MachineFaultP Proofs.MachineRefute.
+(* the browser model (last clause, "a cookie-honouring browser no longer holds the session cookie"): required, not imported *)
+From WW Require Base.Bytes Model.CookieUrl Model.Cookie Model.Jar Model.Retry Proofs.CookieP Proofs.CookieJarP Proofs.SsoProxyJarP.
 Import ListNotations.
 Open Scope Z_scope.
 
@@ -59,3 +61,38 @@ Example c05_nonvacuous :
              [ELogin 1 2; ESpawn 2 KLogoutLocal tk; ERun 2 FNone; ERun 2 FNone] in
   alookup 1%N (w_store (m_w s)) = None /\ thread_done s 2 (OStatus 204).
 Proof. vm_compute. split; [reflexivity|eexists; split; reflexivity]. Qed.
+
+(** ** "... and a cookie-honouring browser no longer holds the session cookie"
+    The browser is Model/Jar.v (RFC 6265 storage model, compared with net/http/cookiejar on every run), the Set-Cookie headers of
+    the logout endpoints are Model/Cookie.v [handle] (compared with the real router on every run, `wwh cookies` / `wwh
+    ssocookies`). A browser with an empty jar talks to one host of the deployment; [steps] is ANY sequence of requests (any
+    endpoints, waiting times, failures). On an SSO server, or when all requests have the same matching ingress path (one
+    ingress path per host), after a logout, local logout or front-channel logout that was not answered through the error
+    handler the jar sends the session cookie to no URL at any time. (With nested ingress paths on one host this fails:
+    Properties/C14.v c14_nested_prefix_refuted, known finding.) *)
+Theorem c05_browser_drops_session_cookie : forall cfg ings e steps dt q f mp trust now u,
+  Cookie.parse_ingresses_full cfg = Some ings -> Retry.e_cfg e = cfg -> Retry.e_ingresses e = ings ->
+  (Cookie.cf_sso_server cfg = true \/
+   Forall (fun s => CookieP.eff_path (Retry.e_mp e (Retry.q_path (snd (fst s)))) = CookieP.eff_path mp) steps /\
+   CookieP.eff_path (Retry.e_mp e (Retry.q_path q)) = CookieP.eff_path mp) ->
+  Retry.q_ep q = Cookie.EpLogout \/ Retry.q_ep q = Cookie.EpLogoutLocal \/ Retry.q_ep q = Cookie.EpFrontChannel ->
+  let b0 := Retry.sleep (CookieJarP.run_jar_seq e {| Retry.b_jar := []; Retry.b_now := 0; Retry.b_session := false |} steps) dt in
+  Cookie.rs_kind (fst (Retry.do_request e b0 q f)) = Cookie.CrOther ->
+  Jar.jar_cookie trust now u (Retry.b_jar (snd (Retry.do_request e b0 q f))) (Cookie.cookie_name (Retry.e_cfg e) Cookie.CkSession) = None.
+Proof. exact SsoProxyJarP.jar_after_logout_same_path. Qed.
+Print Assumptions c05_browser_drops_session_cookie.
+
+(** The same for an SSO deployment with both parties - the SSO server [e] and an SSO proxy [pe] in front of an application on
+    the same SSO domain, which relays local and front-channel logout to the server and the server's answer (every Set-Cookie
+    header included) back: after ANY history of requests to either party, a logout at the server or THROUGH THE PROXY that is
+    not answered through the error handler leaves the browser without a session cookie for any URL. *)
+Theorem c05_browser_drops_session_cookie_via_sso_proxy : forall e pe steps dt (px : bool) q f mp trust now u,
+  SsoProxyJarP.same_deployment e pe mp Cookie.CkSession ->
+  Forall (SsoProxyJarP.px_kind_ok e pe mp Cookie.CkSession) steps -> CookieJarP.kind_ok (if px then pe else e) mp q Cookie.CkSession ->
+  (if px then Retry.q_ep q = Cookie.EpLogoutLocal \/ Retry.q_ep q = Cookie.EpFrontChannel
+   else Retry.q_ep q = Cookie.EpLogout \/ Retry.q_ep q = Cookie.EpLogoutLocal \/ Retry.q_ep q = Cookie.EpFrontChannel) ->
+  let b0 := Retry.sleep (SsoProxyJarP.run_jar_seq_px e pe {| Retry.b_jar := []; Retry.b_now := 0; Retry.b_session := false |} steps) dt in
+  Cookie.rs_kind (fst (SsoProxyJarP.px_step e pe px b0 q f)) = Cookie.CrOther ->
+  Jar.jar_cookie trust now u (Retry.b_jar (snd (SsoProxyJarP.px_step e pe px b0 q f))) (Cookie.cookie_name (Retry.e_cfg e) Cookie.CkSession) = None.
+Proof. exact SsoProxyJarP.jar_after_logout_sso_proxy. Qed.
+Print Assumptions c05_browser_drops_session_cookie_via_sso_proxy.
